@@ -74,3 +74,17 @@ Definition run_c12_memo (c : cfg) (rep : bool) (ps : list (path * list (nat * na
   SL [sx_bool (pystr_eqb (deephash xhash (io_opts c rep) t1) (deephash xhash (io_opts c rep) t2));
       SA (match fst (fst (run_diff_io_m xhash (fun _ _ => []) (fun _ => false) (fun _ => false) c rep (tbl_pairs ps) t1 t2)) with
           | [] => "empty" | _ :: _ => "nonempty" end)].
+
+(* equality pattern of DeepHash(v, **F)[v] over a pool, each value hashed on its OWN fresh `hashes` table
+   (HashModel.deephash: an ==-alias inside one value gets the hash of the first) - WITH the options *)
+Definition run_c12_classes_memo (F : opts) (rep : bool) (vs : list value) : sx :=
+  let hs := map (deephash xhash (hoptsF F true rep)) vs in
+  SL (map (fun h => sx_nat (first_idx h hs 0)) hs).
+
+(* WITH options: the hash side on its own table per value (deephash), the diff side memo-free - for pairs whose
+   ==-aliases sit where the diff engine does not consult the shared table (dict keys / values of directly compared
+   dicts under key cleaning): K2 inside ONE DeepHash call, under the options *)
+Definition run_c12_hmemo (c : cfg) (F : opts) (rep : bool) (ps : list (path * list (nat * nat))) (t1 t2 : value) : sx :=
+  SL [sx_bool (pystr_eqb (deephash xhash (hoptsF F (DiffModel.ignore_private c) rep) t1)
+                         (deephash xhash (hoptsF F (DiffModel.ignore_private c) rep) t2));
+      sx_dverdict (verdictF xhash (fun _ _ => []) c F rep (tbl_pairs ps) t1 t2)].
